@@ -129,6 +129,7 @@ func (w *worker) runPath(j *job, it *workItem) {
 	in.solver.Pop()
 	in.rollback()
 	in.logging = false
+	in.ar.reset()
 	in.path = nil
 
 	j.mu.Lock()
